@@ -1,5 +1,6 @@
 import Bluge.C18.GoStd
 import BlugeGen.C18S
+import Bluge.C18.Indic
 /-! Driver side of the `stem` / `util` correspondence ops of C18: the TRANSLATED definitions of
 `BlugeGen.C18S` are run on the bytes the harness gave to the real stemmer / normaliser / helper, and the
 result is printed in the harness's canonical form (hex term, rune list, `panic`). The token-level wrappers
@@ -22,6 +23,8 @@ def it_lightFilter := viaRunes it_stem
 def pt_lightFilter := viaRunes pt_stem
 def fr_minFilter := viaRunes fr_minstem
 def fr_lightFilter (uc : Unicode) := viaRunes (fr_stem uc)
+/-- analysis/lang/in `IndicNormalizeFilter.Filter` around the hand transcription `Bluge.C18.Indic.normalize` -/
+def in_normalizeFilter (look : Rune → Option Nat) := viaRunes (Bluge.C18.Indic.normalize look)
 
 /-- every filter the `stem` op knows: name ↦ translated term function -/
 def stemFn (uc : Unicode) : String → Option (Bytes → Res Bytes)
@@ -97,9 +100,32 @@ def ucOf (term : Bytes) (aux : List String) : Option Unicode :=
 
 def boolStr (b : Bool) : String := if b then "1" else "0"
 
+/-- `s=<codes>`: for every rune of the term, the index (0…8, by base) of the script table `lookupScript` finds
+it in, `-` for nil — as observed by the harness with `unicode.Is` -/
+def lookOf (term : Bytes) (aux : List String) : Option (Rune → Option Nat) :=
+  match aux.find? (·.startsWith "s=") with
+  | none => none
+  | some a =>
+    let rs := GoStd.runes term
+    let cs := (a.drop 2).toString.toList
+    if rs.length ≠ cs.length then none else
+    ((rs.zip cs).foldlM (fun (m : List (Rune × Option Nat)) (p : Rune × Char) =>
+      let v : Option Nat := if p.2 == '-' then none else some (p.2.toNat - 48)
+      match m.lookup p.1 with
+      | some v' => if v == v' then some m else none
+      | none => some ((p.1, v) :: m)) []).map fun (m : List (Rune × Option Nat)) (r : Rune) => (m.lookup r).getD none
+
 /-- model result and verdict of a `stem` / `util` line -/
 def stemStep (ws : List String) (impl : String) : String × String :=
   match ws with
+  | "stem" :: "in_normalize" :: h :: aux =>
+    let term := unhex h
+    match lookOf term aux with
+    | none => ("script-observation-inconsistent", "na")
+    | some look =>
+      let m := showRes hex (in_normalizeFilter look term)
+      (m, (if impl == "panic" then "bad:panic-stem-in_normalize" else "ok") ++ " br=stem,stem:in_normalize" ++
+        (if m == "panic" then ",stem-model-crash" else ""))
   | "stem" :: name :: h :: aux =>
     let term := unhex h
     match ucOf term aux with
